@@ -25,6 +25,10 @@ def run_one(m):
     try:
         repo = os.path.join(d, "repo")
         shutil.copytree("/repo", repo, ignore=shutil.ignore_patterns("target", ".git"))
+        if m.get("patch"):
+            r = subprocess.run(["patch", "-p1", "-s", "-i", m["patch"]], cwd=repo, capture_output=True, text=True)
+            if r.returncode != 0:
+                return (m["id"], "BROKEN-MUTANT", "patch does not apply: %s" % (r.stdout + r.stderr)[-200:])
         for ed in m["edits"]:
             p = os.path.join(repo, ed["file"])
             s = open(p).read()
@@ -71,7 +75,23 @@ def main():
     if "-j" in sys.argv:
         jobs = int(sys.argv[sys.argv.index("-j") + 1])
         args = [a for a in args if a != str(jobs)]
-    ms = [m for m in mutants.MUTANTS if not args or any(a in m["id"] for a in args)]
+    pool = list(mutants.MUTANTS)
+    if "--seeded" in sys.argv:
+        # regression corpus: every confirmed seeded change must still be caught by the checks that caught it
+        import glob
+
+        pool = []
+        for d in sorted(glob.glob(os.path.join(VERIF, "seeded", "*"))):
+            try:
+                meta = json.load(open(os.path.join(d, "meta.json")))
+            except Exception:
+                continue
+            det = meta.get("detected_by") or []
+            if not meta.get("valid") or not det:
+                continue
+            own = meta["property"] if meta["property"] in det else det[0]
+            pool.append({"id": "seeded-" + os.path.basename(d), "props": [own], "edits": [], "patch": os.path.join(d, "patch.diff"), "expect": {own: ""}, "silent": False})
+    ms = [m for m in pool if not args or any(a in m["id"] for a in args)]
     bad = 0
     with ThreadPoolExecutor(max_workers=jobs) as ex:
         for mid, status, info in ex.map(run_one, ms):
